@@ -135,6 +135,7 @@ class FnView:
         self.localvars = {}    # var decl id -> name  (kept as state variables)
         self.callees = []      # (name, qualified name, node) of resolved calls (typed AST only)
         self.gtypes = {}       # name of a referenced global -> its declared type
+        self.asserts = []      # predicates of assert() statements (visible because the front end parses with -UNDEBUG)
         self.decl = tu.node(f['id'])
         self._body = None
         self._mut = None
@@ -499,6 +500,10 @@ class FnView:
             return out
         if is_expr_kind(k):
             if self.is_assert(n):
+                c = self.strip(n)
+                cks = tu.kids(c)
+                if cks:
+                    self.asserts.append(strip_casts(self.term(cks[0]), pred=lambda ty: ty == 'bool'))
                 return out
             out.append(('expr', self.term(n)))
             return out
